@@ -13,47 +13,47 @@ def G(quick, thorough):
     return dict(quick=quick, thorough=thorough)
 
 
-MIX_Q = [('hashmap', 'mixed', 120, 50, 1), ('lru', 'mixed', 120, 50, 1), ('pool', 'pool', 80, 40, 1)]
-MIX_T = [('hashmap', 'mixed', 600, 70, 4), ('lru', 'mixed', 600, 70, 4), ('pool', 'pool', 400, 60, 2)]
+MIX_Q = [('hashmap', 'mixed', 360, 50, 1), ('lru', 'mixed', 360, 50, 1), ('pool', 'pool', 240, 40, 1)]
+MIX_T = [('hashmap', 'mixed', 600, 70, 8), ('lru', 'mixed', 600, 70, 8), ('pool', 'pool', 400, 60, 4)]
 
 PROPS = {
-    'C01': dict(gen=G(MIX_Q + [('hashmap', 'cancel', 100, 50, 1), ('lru', 'stream', 100, 50, 1)],
+    'C01': dict(gen=G(MIX_Q + [('hashmap', 'cancel', 300, 50, 1), ('lru', 'stream', 300, 50, 1)],
                       MIX_T + [('hashmap', 'cancel', 500, 70, 3), ('lru', 'stream', 500, 70, 3), ('lru', 'limit', 500, 70, 3)]),
                 rule='generated sequential histories (harness gen, profiles mixed/cancel/stream[/limit]) + scheduled thread interleavings; '
                      'non-trivial = the history contains contention on a key (a lock answered none/pending, or a poll)'),
-    'C02': dict(gen=G(MIX_Q + [('lru', 'limit', 100, 50, 1)], MIX_T + [('lru', 'limit', 500, 70, 3), ('hashmap', 'cancel', 500, 70, 2)]),
+    'C02': dict(gen=G(MIX_Q + [('lru', 'limit', 300, 50, 1)], MIX_T + [('lru', 'limit', 500, 70, 3), ('hashmap', 'cancel', 500, 70, 2)]),
                 rule='non-trivial = a value is written or removed through a guard and the key is locked again later in the history'),
-    'C03': dict(gen=G(MIX_Q + [('hashmap', 'cancel', 100, 50, 1)], MIX_T + [('hashmap', 'cancel', 600, 70, 3), ('lru', 'stream', 500, 70, 3)]),
+    'C03': dict(gen=G(MIX_Q + [('hashmap', 'cancel', 300, 50, 1)], MIX_T + [('hashmap', 'cancel', 600, 70, 3), ('lru', 'stream', 500, 70, 3)]),
                 rule='non-trivial = a pending acquisition is later completed by poll (hand-off), or a queued waiter is cancelled'),
-    'C04': dict(gen=G(MIX_Q + [('hashmap', 'cancel', 100, 50, 1)], MIX_T + [('hashmap', 'cancel', 600, 70, 3), ('lru', 'stream', 500, 70, 2)]),
+    'C04': dict(gen=G(MIX_Q + [('hashmap', 'cancel', 300, 50, 1)], MIX_T + [('hashmap', 'cancel', 600, 70, 3), ('lru', 'stream', 500, 70, 2)]),
                 rule='non-trivial = count/keys/snapshot observed while a valueless key is present, or after a failed try / cancel'),
-    'C05': dict(gen=G(MIX_Q + [('lru', 'limit', 100, 50, 1)], MIX_T + [('lru', 'limit', 500, 70, 3), ('hashmap', 'limit', 500, 70, 3)]),
+    'C05': dict(gen=G(MIX_Q + [('lru', 'limit', 300, 50, 1)], MIX_T + [('lru', 'limit', 500, 70, 3), ('hashmap', 'limit', 500, 70, 3)]),
                 rule='non-trivial = history uses at least 3 acquisition variants and 3 kinds of guard operations'),
-    'C06': dict(gen=G([('hashmap', 'cancel', 150, 50, 1), ('lru', 'cancel', 150, 50, 1), ('pool', 'pool', 80, 40, 1), ('lru', 'stream', 100, 50, 1)],
+    'C06': dict(gen=G([('hashmap', 'cancel', 450, 50, 1), ('lru', 'cancel', 450, 50, 1), ('pool', 'pool', 240, 40, 1), ('lru', 'stream', 300, 50, 1)],
                       [('hashmap', 'cancel', 800, 70, 4), ('lru', 'cancel', 800, 70, 4), ('pool', 'pool', 400, 60, 2), ('lru', 'stream', 600, 70, 3), ('lru', 'mixed', 400, 70, 2)]),
                 rule='non-trivial = a pending acquisition is cancelled or a stream with unresolved items is dropped'),
-    'C07': dict(gen=G([('hashmap', 'limit', 150, 50, 1), ('lru', 'limit', 150, 50, 1), ('lru', 'mixed', 80, 50, 1)],
+    'C07': dict(gen=G([('hashmap', 'limit', 450, 50, 1), ('lru', 'limit', 450, 50, 1), ('lru', 'mixed', 240, 50, 1)],
                       [('hashmap', 'limit', 800, 70, 4), ('lru', 'limit', 800, 70, 4), ('lru', 'mixed', 400, 70, 2)]),
                 rule='non-trivial = the eviction callback is invoked at least once'),
-    'C08': dict(gen=G([('hashmap', 'limit', 150, 50, 1), ('lru', 'limit', 150, 50, 1), ('hashmap', 'mixed', 80, 50, 1)],
+    'C08': dict(gen=G([('hashmap', 'limit', 450, 50, 1), ('lru', 'limit', 450, 50, 1), ('hashmap', 'mixed', 240, 50, 1)],
                       [('hashmap', 'limit', 800, 70, 4), ('lru', 'limit', 800, 70, 4), ('hashmap', 'mixed', 400, 70, 2)]),
                 rule='non-trivial = a callback returns an error or re-enters the container, or a limited lock proceeds over the limit'),
-    'C09': dict(gen=G([('lru', 'limit', 200, 50, 2), ('lru', 'mixed', 80, 50, 1)], [('lru', 'limit', 800, 70, 6), ('lru', 'mixed', 400, 70, 2)]),
+    'C09': dict(gen=G([('lru', 'limit', 600, 50, 2), ('lru', 'mixed', 240, 50, 1)], [('lru', 'limit', 800, 70, 6), ('lru', 'mixed', 400, 70, 2)]),
                 rule='non-trivial = an lru eviction round with at least 2 eligible entries'),
-    'C10': dict(gen=G([('lru', 'expire', 200, 50, 2), ('lru', 'mixed', 80, 50, 1)], [('lru', 'expire', 800, 70, 6), ('lru', 'mixed', 400, 70, 2)]),
+    'C10': dict(gen=G([('lru', 'expire', 600, 50, 2), ('lru', 'mixed', 240, 50, 1)], [('lru', 'expire', 800, 70, 6), ('lru', 'mixed', 400, 70, 2)]),
                 rule='non-trivial = an expiry call returns at least one guard while another valued entry is not returned'),
-    'C11': dict(gen=G([('lru', 'stream', 150, 50, 1), ('hashmap', 'stream', 150, 50, 1), ('hashmap', 'mixed', 80, 50, 1)],
+    'C11': dict(gen=G([('lru', 'stream', 450, 50, 1), ('hashmap', 'stream', 450, 50, 1), ('hashmap', 'mixed', 240, 50, 1)],
                       [('lru', 'stream', 800, 70, 4), ('hashmap', 'stream', 800, 70, 4), ('hashmap', 'mixed', 400, 70, 2)]),
                 rule='non-trivial = a stream yields an item or is pending behind a holder'),
-    'C12': dict(gen=G(MIX_Q[:2] + [('hashmap', 'cancel', 100, 50, 1), ('lru', 'limit', 100, 50, 1)],
+    'C12': dict(gen=G(MIX_Q[:2] + [('hashmap', 'cancel', 300, 50, 1), ('lru', 'limit', 300, 50, 1)],
                       MIX_T[:2] + [('hashmap', 'cancel', 500, 70, 3), ('lru', 'limit', 500, 70, 3), ('lru', 'stream', 500, 70, 2)]),
                 rule='non-trivial = into_entries_unordered returns at least one pair after a history with a failed try, cancel, eviction or stream'),
-    'C13': dict(gen=G(MIX_Q + [('hashmap', 'cancel', 80, 50, 1), ('lru', 'limit', 80, 50, 1), ('lru', 'expire', 80, 50, 1), ('lru', 'stream', 80, 50, 1)],
+    'C13': dict(gen=G(MIX_Q + [('hashmap', 'cancel', 240, 50, 1), ('lru', 'limit', 240, 50, 1), ('lru', 'expire', 240, 50, 1), ('lru', 'stream', 240, 50, 1)],
                       MIX_T + [('hashmap', 'cancel', 500, 70, 3), ('lru', 'limit', 500, 70, 3), ('lru', 'expire', 500, 70, 3), ('lru', 'stream', 500, 70, 3)]),
                 rule='non-trivial = history of at least 10 requests executed with slow_assertions enabled'),
-    'C14': dict(gen=G([('pool', 'pool', 300, 50, 2)], [('pool', 'pool', 1500, 70, 6)]),
+    'C14': dict(gen=G([('pool', 'pool', 900, 50, 2)], [('pool', 'pool', 1500, 70, 6)]),
                 rule='non-trivial = a pool history with contention (none/pending/poll/cancel)'),
-    'C15': dict(gen=G([('hashmap', 'limit', 150, 50, 1), ('lru', 'limit', 150, 50, 1), ('hashmap', 'mixed', 80, 50, 1)],
+    'C15': dict(gen=G([('hashmap', 'limit', 450, 50, 1), ('lru', 'limit', 450, 50, 1), ('hashmap', 'mixed', 240, 50, 1)],
                       [('hashmap', 'limit', 800, 70, 4), ('lru', 'limit', 800, 70, 4), ('hashmap', 'mixed', 400, 70, 2)]),
                 rule='non-trivial = a user callback panics (eviction round or value_or_insert_with closure)'),
 }
